@@ -50,14 +50,21 @@ def snapshot_context(context: Context) -> Context:
     #       2. We assume that user won't be replacing the dicts in the older layers.
     #       3. Thus, when we come across a layer that has already been copied,
     #          we know that all layers before it have also been copied.
+    #       4. The exception is the last already-copied layer (the first one we come across). When we render
+    #          a component's template with a snapshot, this is the layer that tags like `{% firstof .. as var %}`
+    #          write to. If we shared it, a variable assigned AFTER a nested `{% component %}` tag would be
+    #          visible to that component (it is rendered later). So this one is copied again.
+    is_first_copied_layer = True
     for ctx_dict_index in reversed(range(len(context.dicts))):
         ctx_dict = context.dicts[ctx_dict_index]
 
         # This layer is already copied, reuse this and all before it
         if isinstance(ctx_dict, CopiedDict):
-            # NOTE: +1 because we want to include the current layer
-            dicts_with_copied_forloops = context.dicts[: ctx_dict_index + 1] + dicts_with_copied_forloops
-            break
+            if not is_first_copied_layer:
+                # NOTE: +1 because we want to include the current layer
+                dicts_with_copied_forloops = context.dicts[: ctx_dict_index + 1] + dicts_with_copied_forloops
+                break
+            is_first_copied_layer = False
 
         # Copy the dict
         ctx_dict_copy = CopiedDict(ctx_dict)
